@@ -6,7 +6,7 @@ def atom(d):
     if r < 0.45: return rnd.choice(['a','b','c','é','𝄞',' ','x'])
     if r < 0.55: return '.'
     if r < 0.62: return rnd.choice(['\\.','\\|','\\(','\\)','\\*','\\\\','\\$','\\^','\\[','\\/'])
-    if r < 0.75: return rnd.choice(['[abc]','[a-c]','[^a]','[^a-b]','[ab-c]','[\\]a]','[a\\-b]','[z-a]'])
+    if r < 0.75: return rnd.choice(['[abc]','[a-c]','[^a]','[^a-b]','[ab-c]','[\\]a]','[a\\-b]','[z-a]','[(]','[)]','[^)]','[^(]','[()]','[|]','[*+?]','[.]','[$]','[a(]','[)b]','[{}]'])
     if r < 0.80: return rnd.choice(['^','$'])
     if d < 3: return rnd.choice(['(','(?:']) + alt(d+1) + ')'
     return 'a'
@@ -25,7 +25,7 @@ def broken(p):
     if r < 0.6: return p + rnd.choice([')|(b', ')(', ')|(?:a'])
     return p
 def subject():
-    return ''.join(rnd.choice(['a','b','c','x','é','𝄞',' ','\n','.','|','(',')','\\','$','^','ab','']) for _ in range(rnd.choice([0,1,1,2,2,3,4])))
+    return ''.join(rnd.choice(['a','b','c','x','é','𝄞',' ','\n','.','|','(',')','\\','$','^','ab','','*','+','?','{','}']) for _ in range(rnd.choice([0,1,1,2,2,3,4])))
 SPECIAL = ['(?x)a#c', 'a(?x)#', '(?x)#', '(?x) a b #c', '(' * 249 + 'a' + ')' * 249, '(' * 250 + 'a' + ')' * 250, '(' * 251 + 'a' + ')' * 251, '(?:' * 250 + 'a' + ')' * 250, 'a{1000}', '(a{100}){100}', '\\pL', '[[:alpha:]]', '(?i)a', 'a#c']
 for _ in range(N):
     p = alt(0)
